@@ -156,14 +156,24 @@ func setupFixture(ts *testServer) (*fixture, error) {
 	if fx.scratch, fx.smodel, err = mk("c19-scratch", baseDSL); err != nil {
 		return nil, fmt.Errorf("scratch store: %w", err)
 	}
+	// the base tuples in batches of 90 (one request each); a rejected batch is retried one by one
+	all := baseTuples()
 	nfail := 0
-	for _, t := range baseTuples() {
+	for i := 0; i < len(all); i += 90 {
+		batch := all[i:min(i+90, len(all))]
 		_, err := ts.client.Write(ctx, &openfgav1.WriteRequest{StoreId: fx.store, AuthorizationModelId: fx.model,
-			Writes: &openfgav1.WriteRequestWrites{TupleKeys: []*openfgav1.TupleKey{t}}})
-		if err != nil {
-			nfail++
-			if nfail > 3 {
-				return nil, fmt.Errorf("fixture tuple %v: %w", t, err)
+			Writes: &openfgav1.WriteRequestWrites{TupleKeys: batch}})
+		if err == nil {
+			continue
+		}
+		for _, t := range batch {
+			_, err := ts.client.Write(ctx, &openfgav1.WriteRequest{StoreId: fx.store, AuthorizationModelId: fx.model,
+				Writes: &openfgav1.WriteRequestWrites{TupleKeys: []*openfgav1.TupleKey{t}}})
+			if err != nil {
+				nfail++
+				if nfail > 3 {
+					return nil, fmt.Errorf("fixture tuple %v: %w", t, err)
+				}
 			}
 		}
 	}
